@@ -696,6 +696,10 @@ def fam_encode_paths(rng, n, prefix):
         c = Case("%s%d" % (prefix, i), "mux")
         emit_cfg(c, cfg, rng)
         started = False
+        if rng.chance(1, 3):
+            # a first convenience call that is rejected (by the API layer or only by the writer), then the real start
+            c.o("ev", rng.choice([hx(rng.bytes(rng.range(1, 12))), hx(video_delta(rng, codec)), "-", hx(video_delta(rng, codec))]),
+                "%x" % rng.choice([33, 40]))
         for k in range(rng.range(2, 9)):
             r = rng.below(12)
             ms = "%x" % rng.choice([33, 33, 40, 1, 0, 1000, 17])
